@@ -49,4 +49,10 @@ for outlen, count, tier in ((16, 2, "quick"), (48, 3, "quick"), (64, 2, "quick")
                         "defs": ["-DOUTLEN=%d" % outlen, "-DCOUNT=%d" % count, "-DSALTLEN=3"], "unwind": 80, "timeout": 600, "tier": tier,
                         "title": "sm3_pbkdf2 = RFC 8018 PBKDF2 over an ideal PRF: U_1 = PRF(P, S||INT(i)), U_j = PRF(P, U_{j-1}), T_i = xor, DK truncated",
                         "bounds": "dkLen %d, c = %d, salt 3 bytes" % (outlen, count), "stubs": ["sm3_hmac_* = ideal PRF with call log"]})
+for generic in (0, 1):
+    for sl, il, ol, tq in ((4, 3, 40, "quick"), (0, 0, 32, "quick"), (32, 10, 70, "thorough")):
+        OBLIGATIONS.append({"id": "C03-c.%shkdf.s%d_i%d_l%d" % ("generic_" if generic else "sm3_", sl, il, ol), "harness": "harness/C03/hkdf.c", "entry": "h_hkdf", "units": ["hkdf.c"],
+                            "defs": ["-DSALTLEN=%d" % sl, "-DINFOLEN=%d" % il, "-DOKMLEN=%d" % ol] + (["-DGENERIC"] if generic else []), "unwind": 90, "timeout": 600, "tier": tq,
+                            "title": ("hkdf_extract / hkdf_expand (generic digest interface)" if generic else "sm3_hkdf_extract / sm3_hkdf_expand") + " = RFC 5869 over an ideal PRF",
+                            "bounds": "salt %d, IKM 5, info %d, OKM %d bytes; all contents" % (sl, il, ol), "stubs": ["HMAC interface = ideal PRF with call log"]})
 NOTE = "C03: hashes, MACs, KDFs."
